@@ -53,8 +53,19 @@ def read_entries(root):
     for e in pm['entries']:
         if e['tag'] == 'TIMESTAMP':
             ts = e['ts']
-        elif e['tag'] == 'DATA':
+        elif e['tag'] in ('DATA', 'MANIFEST'):
             ents[e['path']] = (e['size'], e['ck'].get('SHA1'), tuple(sorted(e['ck'])))
+            if e['tag'] == 'MANIFEST':
+                # the entries of a (plain) sub-Manifest, under their full paths
+                try:
+                    with open(os.path.join(root, e['path']), 'rb') as f:
+                        sub = fm.parse_manifest_text(f.read().decode('utf8'))
+                except (OSError, ValueError):
+                    continue
+                d = os.path.dirname(e['path'])
+                for se in sub['entries']:
+                    if se['tag'] == 'DATA':
+                        ents[d + '/' + se['path']] = (se['size'], se['ck'].get('SHA1'), tuple(sorted(se['ck'])))
     return ents, ts
 
 
@@ -84,6 +95,14 @@ def one_history(args):
                 f.write(b'v0-' + n.encode())
             t = BASE - 100
             os.utime(os.path.join(A, n), (t, t))
+        # half of the histories have a sub-Manifest (adopted by create); it is a file like the others, edited by
+        # hand now and then: its DIST line gets another digest (same size) or a second line (other size)
+        submf = rng.random() < 0.5
+        if submf:
+            with open(os.path.join(A, 'sub', 'Manifest'), 'wb') as f:
+                f.write(b'DIST x-1.tar 1 SHA1 ' + b'a' * 40 + b'\n')
+            os.utime(os.path.join(A, 'sub', 'Manifest'), (BASE - 100, BASE - 100))
+            names.append('sub/Manifest')
         _Clock.now = BASE + rng.random()
         o1 = gem.run_cli(['create', '--timestamp', '--hashes', 'SHA1', A])
         if o1['status'] != 0:
@@ -122,6 +141,8 @@ def one_history(args):
             live = [n for n in names if os.path.exists(os.path.join(A, n))]
             for n in rng.sample(live, min(len(live), rng.randrange(0, 4))):
                 kind = rng.choice(['same', 'same', 'same', 'size', 'delete', 'touch'])
+                if n == 'sub/Manifest' and kind == 'delete':
+                    kind = 'same'
                 # mtime relative to the previous TIMESTAMP
                 d = rng.choice([-3600.0, -1.0, 0.0, 0.001, 0.5, 0.999, 1.0, 60.0, 3 * 3600.0, 6 * 3600.0, 12 * 3600.0,
                                 _Clock.now - prev - 1])
@@ -142,6 +163,12 @@ def one_history(args):
                         continue
                     if kind == 'touch':
                         pass
+                    elif kind == 'same' and n == 'sub/Manifest':
+                        old = open(p, 'rb').read()      # another digest on the first DIST line, same size
+                        i = old.index(b' SHA1 ') + 6
+                        open(p, 'wb').write(old[:i] + (b'b' if old[i:i + 1] == b'a' else b'a') + old[i + 1:])
+                    elif kind == 'size' and n == 'sub/Manifest':
+                        open(p, 'ab').write(b'DIST y-%d.tar 1 SHA1 ' % rnd + b'c' * 40 + b'\n')
                     elif kind == 'same':
                         old = open(p, 'rb').read()
                         new = bytes([old[0] ^ 1]) + old[1:] if rnd % 2 == 0 else old[:-1] + bytes([old[-1] ^ 1])
@@ -247,6 +274,12 @@ def one_history(args):
                         fl['true'] = (ea.get(n) or ())[:2] == (len(data), hashlib.sha1(data).hexdigest())
                     elif not os.path.exists(p):
                         fl['true'] = n not in ea
+            if ok and 'sub/Manifest' in flist and any(not flist[n]['same'] for n in names
+                                                      if n.startswith('sub/') and n != 'sub/Manifest'):
+                # the two sub-Manifests legitimately differ where a file below them does (a modification
+                # that broke the precondition): the Manifest file itself is then not compared
+                flist['sub/Manifest']['same'] = True
+                flist['sub/Manifest']['true'] = True
             recs.append({'tz': tz, 'files': [flist[n] for n in names], 'dts': dts, 'ok': ok,
                          'meta': {'seed': seed, 'idx': idx, 'round': rnd, 'ops': {k: list(v) for k, v in ops.items()},
                                   'mid': list(pending_mid), 'tz': tz, 'hashes': hs, 'fdcap': fdcap,
